@@ -105,6 +105,10 @@ fn mixes() -> Vec<Mix> {
         Mix { name: "FO+FO identical", cfgs: vec![fo.clone(), fo.clone()] },
         // identical sinc table sizes, different cutoff / window
         Mix { name: "SI+SI same table size different filter", cfgs: vec![si.clone(), { let mut c = si.clone(); c.ratio = 0.8; c.window = rubato::WindowFunction::Hann; c }] },
+        // parameters that differ only slightly (a cache keyed on rounded floats would collide)
+        Mix { name: "SI+SI cutoffs 3e-5 apart", cfgs: vec![si.clone(), { let mut c = si.clone(); c.f_cutoff += 3.0e-5; c }] },
+        Mix { name: "SI+SO downsampling, ratios 5e-5 apart", cfgs: vec![{ let mut c = si.clone(); c.ratio = 0.91875; c }, { let mut c = so.clone(); c.ratio = 0.9187; c }] },
+        Mix { name: "FO+FO ratios 3e-5 apart", cfgs: vec![fo.clone(), { let mut c = fo.clone(); c.ratio += 3.0e-5; c }] },
     ]
 }
 
